@@ -210,6 +210,7 @@ def run(ctx):
               "'name', './name', '/name'; defective member sets (missing debian-binary / control / data, two candidates for a part "
               "incl. uncompressed + compressed); non-trivial = distinct (compressions, order, file set)", "25 compression pairs")
     reps = 2 if ctx.tier == "quick" else 12
+    previous = None
     for cext, dext in itertools.product(EXTS, EXTS):
         for _ in range(reps):
             files = rng.sample(DATA_FILES, rng.randint(0, len(DATA_FILES)))
@@ -267,6 +268,19 @@ def run(ctx):
                     break
             if bad:
                 break
+            # a package read earlier in the same process still answers as it did (no state shared between readers)
+            if previous is not None:
+                pdeb, pfields, pscripts, pmd5, pfiles, pdesc = previous
+                try:
+                    again = (list(pdeb.debcontrol().items()), pdeb.scripts(), pdeb.md5sums(encoding="utf-8"),
+                             [(n, pdeb.data.get_content(n) if pdeb.data.has_file(n) else None) for n, _ in pfiles])
+                except Exception as e:
+                    t.failed("re-querying an earlier package after reading another one raised %r" % (e,), package=pdesc, other=desc)
+                    break
+                if again != (pfields, pscripts, pmd5, [(n, dta) for n, dta in pfiles]):
+                    t.failed("an earlier package answers differently after another package was read", package=pdesc, other=desc)
+                    break
+            previous = (deb, fields, scripts, md5, list(files), desc)
         if t.fail:
             break
     # malformed packages
